@@ -110,7 +110,7 @@ def run_plan(res, queries, workers=8, mem_budget_gb=56, logdir=None):
             results.append(r)
         sys.stderr.write("[%s] %-40s %-12s %6.1fs vars=%s clauses=%s %s\n" % (
             res.prop, q.harness.split("::")[-1], r["status"], r.get("wall_s", 0), r.get("vars"), r.get("clauses"),
-            r.get("reason", "")))
+            ("rss=%sG " % r.get("maxrss_gb")) + r.get("reason", "")))
         sys.stderr.flush()
 
     threads = []
@@ -194,7 +194,7 @@ def finish(res, level_rule, samples_extra=None):
     samples = []
     for q in res.queries[:40]:
         s = {k: q.get(k) for k in ("harness", "status", "vars", "clauses", "symex_s", "solver_s", "wall_s", "covers_sat",
-                                   "covers_total", "checks", "note", "reason", "kind", "detail") if q.get(k) not in (None, "")}
+                                   "covers_total", "checks", "note", "reason", "kind", "detail", "maxrss_gb") if q.get(k) not in (None, "")}
         samples.append(s)
     if samples_extra:
         samples += samples_extra
